@@ -486,6 +486,19 @@ Proof.
   destruct (get_symbol r (p ++ u)) as [sym|e]; simpl; [|discriminate].
   intros [= <-]. exists pd. simpl. repeat split; try reflexivity. apply lookup_insert.
 Qed.
+(** the symbol stored with the lazily registered definition is prefix symbol ++ unit symbol *)
+Theorem registered_symbol r p u l d pd ud :
+  prefixed_def r p u = Ok d → parse_unit_name r (p ++ u) = (p, u) :: l →
+  r_prefixes r !! p = Some pd → r_units r !! u = Some ud → p_symbol pd ++ u_symbol ud ≠ "" →
+  u_symbol d = p_symbol pd ++ u_symbol ud.
+Proof.
+  intros Hd Hl Hp Hu Hne. unfold prefixed_def in Hd. rewrite Hp, Hu in Hd.
+  destruct (negb (u_multiplicative ud)); [discriminate|].
+  unfold get_symbol in Hd. rewrite Hl, Hp, Hu in Hd. simpl in Hd. injection Hd as <-.
+  unfold u_symbol at 1. simpl.
+  destruct (String.eqb (p_symbol pd ++ u_symbol ud) "") eqn:E; [|reflexivity].
+  apply String.eqb_eq in E. contradiction.
+Qed.
 Theorem offset_not_prefixable r s p u l pd ud :
   s ≠ "dimensionless" → r_units r !! s = None → parse_unit_name r s = (p, u) :: l → p ≠ "" →
   r_prefixes r !! p = Some pd → r_units r !! u = Some ud → u_multiplicative ud = false →
